@@ -21,7 +21,7 @@ SHAPES = {
     "float": [ABSENT, 2.5, -1e-07, 1e16],
     "str": [ABSENT, "s", "two words", "train|test", ""],
     "bool": [ABSENT, True, False],
-    "Optional[int]": [ABSENT, NONE, 7, 0],
+    "Optional[int]": [ABSENT, NONE, 7, 0, -2],
     "Optional[str]": [NONE, "x"],
     "Literal['x', 'y']": [ABSENT, "x"],
     "Literal['http1', 'adam_w', 'q-r']": [ABSENT, "adam_w"],
@@ -37,6 +37,9 @@ SHAPES = {
     "Optional[float]": [NONE, 0.5, 0.0],
     "Optional[bool]": [NONE, False, True],
     "Union[bool, str]": [ABSENT, False],
+    # bracket-less type strings that are not a bare name: a dotted name, a PEP 604 union
+    "int | None": [ABSENT, 4],
+    "collections.OrderedDict": [ABSENT],
     # type strings long enough for the emitters' word-wrapper (100 columns) to break them
     LONG_LITERAL: [ABSENT, "hinge"],
     LONG_UNION: [NONE],
